@@ -186,6 +186,25 @@ fn run_replay(id: &str, path: &PathBuf) -> i32 {
         Some("c24") | Some("c24_pilen") => props::parsers::replay(case),
         other => Err(format!("no replay handler for kind {:?}", other)),
     };
+    // Cases without a direct re-execution handler (their generating model is not stored in the
+    // file, or they are statistical): re-run the whole check from the recorded seed and tier and
+    // look for the recorded signature. Nothing is written to evidence/ or replays/ in this mode.
+    let r = match r {
+        Err(e) => {
+            let seed = v["seed"].as_u64().unwrap_or(20260921);
+            let tier = if v["tier"] == "thorough" { Tier::Thorough } else { Tier::Quick };
+            let sig = v["signature"].as_str().unwrap_or("").to_string();
+            eprintln!("replay: {} -> re-running {} {} with the recorded seed {} and looking for signature [{}]", e, id, tier.name(), seed, sig);
+            let ctx = Ctx::new(id, tier, seed, Some(path.clone()));
+            if !dispatch(&ctx) {
+                Err(format!("unknown property id {}", id))
+            } else {
+                let t = ctx.tally.lock().unwrap();
+                Ok(t.violations.iter().any(|x| x.signature == sig))
+            }
+        }
+        ok => ok,
+    };
     match r {
         Ok(true) => {
             println!("VIOLATION property={} replay={}", id, path.display());
